@@ -71,7 +71,7 @@ CHECKS = {
         note="Modelled predicate kinds: commitment and equality; revocation/membership/encryption verifiers use the same extraction path (verify.rs) and are covered at protocol level by C06/C10.",
         technique="Coq theorems (induction over the index walk; verifier model) + differential correspondence with deviating holders"),
     "C09": dict(
-        text="Theorems: acceptance of an equality statement implies a non-empty reference list and one scalar v such that every referenced (signature statement, claim) yields response v through the checked extraction path; with special soundness (C17) equal responses under two challenges give equal extracted signed values. "
+        text="Theorems: acceptance of an equality statement implies a non-empty reference list and one scalar v such that every referenced (signature statement, claim) yields response v through the checked extraction path; with special soundness (C17) equal responses under two challenges give equal extracted signed values; and for the honest side, a model of the prover's blinder propagation with the theorem that any two claims named by one equality statement end up with the same proof message whatever the number, overlap and order of the statements (refuted, with the witness (b=c, a=b), for the pinned tree's statement-by-statement copying; repaired). "
              "Correspondence: 2..3 credentials, same/different issuers; unequal values with shared, independent and copied nonces, omitted equality proof, tampered referenced proofs; BBS/PS; plus the completeness half on the implementation: honest Presentation::create -> verify over 3..4 credentials with the equalities written as one statement, a chain of pairwise statements or a star, in any schema order.",
         design="§7 C09",
         note="Extraction against arbitrary efficient provers is the usual ROM step (assumed).",
